@@ -142,6 +142,12 @@ def isDimKw (cfg : Cfg) (a : Str) : Bool :=
 
 def varKey (cfg : Cfg) (s : Str) : Str := if cfg.stripName then strip s else s
 
+/-- `_attr_key` (repair cbe48be): the key of an item of an access / SAVE / OPTIONAL ... statement. A generic-spec
+    is the same identifier however its tokens are spaced; a plain name is filed as before. -/
+def attrKey (it : Str) : Str :=
+  let t := lower (strip it)
+  if t.contains '(' then t.filter (fun c => !isSpace c) else t
+
 /-- what one attribute statement files under the key `n`: the texts appended to `attr_dict[n]`, in order.
     (`data` files nothing; `dimension/allocatable/pointer` file keyword + array specification under the
     name in front of the parenthesis; a PARAMETER item is filed under the name in front of its `=`;
